@@ -25,7 +25,8 @@ RULE = ('Hypothesis-generated programs (all features) plus the example corpus. (
         'be byte-identical (or the same diagnostic). (ii) stack-size monotonicity: a run that does not overflow at S must '
         'behave identically at S_min, S_min+1, 2*S_min, 400, 4000 and the largest stack the word size allows. (iii) word-size '
         'monotonicity: if the reference interpreter at word size w reports no wrap-around, the VM events at every wider '
-        'w\' in {2,3,4,8} equal those at w. (iv) lint: compiling with unreachable_error=True either raises '
+        'w\' in {2,3,4,8} equal those at w; a grid of small dynamic-array programs is additionally run at every word size from 2 to 8 '
+        'bytes (also the odd ones). (iv) lint: compiling with unreachable_error=True either raises '
         'TypeCheckError("Unreachable...") or yields byte-identical assembly. Non-trivial: program with >=3 functions, >=2 '
         'distinct string constants and >=2 globals (tables whose order could depend on hashing) for (i)/(iv); every '
         'multi-configuration comparison of a program with arrays for (ii)/(iii). Distinct by hash of (source, argv, sub-check).')
@@ -36,7 +37,7 @@ SEEDS = ['0', '1', '12345', 'random']
 
 
 def shards(tier):
-    return [('det', k) for k in range(8)] + [('cfg', k) for k in range(8)]
+    return [('det', k) for k in range(8)] + [('cfg', k) for k in range(7)] + [('wgrid', 0)]
 
 
 def table_rich(prog):
@@ -207,6 +208,34 @@ def run_shard(desc, seed, tier):
     if kind == 'det':
         run_det(k, seed, tier, stats)
         return stats
+    if kind == 'wgrid':
+        # small programs around dynamic arrays / nested allocation (the C04 grid), every word size 2..8 bytes:
+        # values stay tiny, so all word sizes must print the same
+        from props.C04 import vla_grid_programs
+        for pi, (name, src) in enumerate(vla_grid_programs()):
+            if tier == 'quick' and pi % 3 != seed % 3:
+                continue
+            for n in (3, 9):
+                base = None
+                for ws in (2, 3, 4, 5, 6, 7, 8):
+                    try:
+                        r = run_lines(compile_lines(src, ws, S0, False), [str(n)], budget=400_000)
+                    except H.CompilerError as e:
+                        stats.violation({'kind': 'wgrid', 'value': [name, n], 'message': 'rejected at word size %d: %s\n%s' % (ws, e, src), 'signature': 'wgrid:reject'})
+                        break
+                    stats.evaluated()
+                    stats.cls('word_grid_runs')
+                    if base is None:
+                        base = r
+                    elif r.events != base.events or r.outcome != base.outcome:
+                        stats.violation({'kind': 'wgrid', 'value': [name, n], 'signature': 'wgrid',
+                                         'message': 'dynamic-array program %s n=%d: word size %d gives %s, word size 2 gives %s\n%s' % (
+                                             name, n, ws, fmt_events(r.events), fmt_events(base.events), src)})
+                        break
+                else:
+                    stats.nt('wgrid:%s:%d' % (name, n))
+        stats.sample({'kind': 'word-size grid', 'word_sizes': [2, 3, 4, 5, 6, 7, 8]})
+        return stats
     n = 120 if tier == 'quick' else 2500
     feats = ALL_FEATURES - {'bigvals'}
     strat = st.tuples(programs(features=feats, ws=None if k % 2 else 2), st.integers(0, 1))
@@ -225,6 +254,16 @@ def run_shard(desc, seed, tier):
 
 
 def replay(case):
+    if case.get('kind') == 'wgrid':
+        from props.C04 import vla_grid_programs
+        name, n = case['value']
+        src = dict(vla_grid_programs())[name]
+        base = run_lines(compile_lines(src, 2, S0, False), [str(n)], budget=400_000)
+        for ws in (3, 4, 5, 6, 7, 8):
+            r = run_lines(compile_lines(src, ws, S0, False), [str(n)], budget=400_000)
+            if r.events != base.events or r.outcome != base.outcome:
+                return 'word size %d differs from word size 2' % ws
+        return None
     if case.get('kind') in ('det', 'lint'):
         it = case['item']
         outs = {inproc_hash(it), inproc_hash(it)} | {batch_hashes([it], hs)[0] for hs in SEEDS}
